@@ -179,6 +179,13 @@ def _branch_draw_variant(rng, d, in_branch):
 def _lib_functional(rng):
     """Sin / Cos / Exp of a drawn variable, read before it is re-assigned; goals over the function variable and its
     consumers in random order (the recurrence builder keeps per-monomial context for such variables)"""
+    if _random.Random(f"fnb|{rng.random()}").random() < 0.3:
+        # the function assigned inside branches
+        side = _random.Random(f"fnb2|{rng.random()}")
+        text, gl = gen.functional_branch_program(side)
+        return {"kind": "lib", "pid": "fnb:" + hashlib.sha256(text.encode()).hexdigest()[:10], "program": {"text": text},
+                "goals": [{"monom": g, "kind": "raw"} for g in gl], "options": dict(side.choice([{}, {}, {"exact_func_moments": True}, {"cond2arithm": True}])),
+                "api": side.choice(["raw", "common", "common"]), "force_cyclic": False}
     d = rng.choice(["Normal(0, 1)", "Uniform(0, 1)", "Normal(1, 1/4)", "Uniform(-1, 1)"])
     fn = rng.choice(["Cos", "Sin", "Exp"])
     init = ["x = 0", f"s = {rng.choice([0, 1, 2])}", "y = 0"]
